@@ -171,7 +171,16 @@ def _point(fam, term, kind, rec, env, rnd):
                 fam_cls = WeibullRightCensoredFamily
             got = fam_cls.nll(x, *args).value[0, 0].item()
             ref = 1e307 if kind == "penalty" else ev(term, env)
-            # layout with two competing events per individual, each with its own censoring flag
+            # the other routes to the same distribution: log-survival and hazard handed out by the family (the ingredients of the
+            # event part of a joint trajectory) against the Survival / LogHazard terms, after the reference time
+            if rec["pos"] in ("after", "just_after"):
+                surv_t = ("pow", ("div", ("sub", ("var", "t"), ("var", "tau")), NU(rec["src"])), ("var", "rho"))
+                haz_t = ("add", ("log", ("div", ("var", "rho"), NU(rec["src"]))),
+                         ("mul", ("sub", ("var", "rho"), ("num", 1, 1)), ("log", ("div", ("sub", ("var", "t"), ("var", "tau")), NU(rec["src"])))))
+                ls = float(fam_cls.compute_log_survival(x, *args)[0, 0])
+                hz = float(fam_cls.compute_hazard(x, *args)[0, 0])
+                routes &= close(ls, -ev(surv_t, env), rel=5e-4, abs_=1e-7) and close(hz, math.exp(ev(haz_t, env)), rel=5e-4, abs_=1e-30)
+                rec["route_gap"] = max(rec.get("route_gap", 0.0), abs(hz - math.exp(ev(haz_t, env))) / (abs(hz) + 1e-300))
             tt2 = torch.tensor([[t, tau + 2.0], [tau + 1.0, t]], dtype=torch.float64)
             wb2 = torch.tensor([[observed, not observed], [not observed, observed]])
             a2 = [torch.tensor([env["nu"], env["nu"]]), torch.tensor([rho, rho]), torch.tensor([[env["xi"]], [env["xi"]]]),
